@@ -553,6 +553,9 @@ fn blank_format_script(vol: &VolCfg) -> (Store, Script) {
 }
 
 pub fn replay(v: &serde_json::Value) -> Result<Option<String>, String> {
+    if v["kind"].as_str() == Some("stdio") {
+        return super::c09std::replay(v);
+    }
     let fc: FaultCase = serde_json::from_value(v["case"].clone()).map_err(|e| format!("bad fault case: {}", e))?;
     let base = if fc.script.target == vec![FStep::Format] { blank_format_script(&fc.script.vol).0 } else { populated(&fc.script.vol)? };
     let n = execute(&base, &fc.script, 0, u64::MAX / 100).target_calls;
@@ -590,7 +593,7 @@ fn fstep_strategy() -> impl Strategy<Value = FStep> {
 }
 
 pub fn run(tier: Tier, seed: u64) -> i32 {
-    let rule = "exhaustive single-fault enumeration: for every volume (FAT12/16/32, FAT32 with unknown FS-info count) x representative operation (mount, stats, status flags, labels, list, deep open+read, create+write+flush, overwrite, seek+read, append, truncate, set times, mkdir, remove file/dir, rename, move file/dir, extents, unmount, format) every position k of the operation's device-call sequence fails once with a tagged error (read, write, seek and flush alike); the public call (or iterator item) in progress must return Error::Io with that tag, within 50*N+1000 device calls and without panic; faults inside destructors are exempt (drop-depth hook); plus random scripts whose last steps are enumerated the same way; non-trivial = the fault fired outside a destructor; distinct by (script, volume, k)";
+    let rule = "exhaustive single-fault enumeration: for every volume (FAT12/16/32, FAT32 with unknown FS-info count) x representative operation (mount, stats, status flags, labels, list, deep open+read, create+write+flush, overwrite, seek+read, append, truncate, set times, mkdir, remove file/dir, rename, move file/dir, extents, unmount, format) every position k of the operation's device-call sequence fails once with a tagged error (read, write, seek and flush alike); the public call (or iterator item) in progress must return Error::Io with that tag, within 50*N+1000 device calls and without panic; faults inside destructors are exempt (drop-depth hook); plus the same enumeration on a std::io storage behind fatfs::StdIoWrapper with a std::io::Error of each kind except Interrupted (the one kind the storage traits document as 'retry'): the call must return Error::Io carrying that kind; plus random scripts whose last steps are enumerated the same way; non-trivial = the fault fired outside a destructor; distinct by (script, volume, k)";
     let mut rep = Report::new("C09", tier, seed, "fault_enumeration", rule);
     rep.assume("single faults only (one failing device call per run)");
     rep.assume("device calls issued from File::drop / FileSystem::drop are exempt, identified by the verif_drop_depth hook");
@@ -677,6 +680,11 @@ pub fn run(tier: Tier, seed: u64) -> i32 {
     });
     blk.exhaustive = blk.classes.get("operations_sampled_not_exhaustive").copied().unwrap_or(0) == 0;
     rep.add(blk);
+    // a std::io storage behind fatfs::StdIoWrapper: the injected error is a std::io::Error of every kind but Interrupted
+    if !rep.failed() {
+        let okb: Vec<Store> = bases.iter().map(|b| b.as_ref().unwrap().clone()).collect();
+        rep.add(super::c09std::block(&vols, &okb, tier.pick(400, 6000)));
+    }
     // random scripts: prefix fault-free, every position of the last 1..3 steps
     if !rep.failed() {
         let n_scripts = tier.pick(150u32, 3000u32);
